@@ -27,6 +27,118 @@ typedef struct {
 	int state;
 } iterator_t;
 
+/*
+  The names stored in an image are not trusted. Every directory that is
+  read goes through this filter, so an entry whose name is ".", ".." or
+  contains a slash never becomes (part of) a tar member name.
+*/
+typedef struct {
+	sqfs_dir_iterator_t base;
+	sqfs_dir_iterator_t *src;
+} sane_filter_t;
+
+static int sane_filter_create(sqfs_dir_iterator_t **out,
+			      sqfs_dir_iterator_t *src);
+
+static void sane_destroy(sqfs_object_t *obj)
+{
+	sqfs_drop(((sane_filter_t *)obj)->src);
+	free(obj);
+}
+
+static int sane_next(sqfs_dir_iterator_t *base, sqfs_dir_entry_t **out)
+{
+	sqfs_dir_iterator_t *src = ((sane_filter_t *)base)->src;
+
+	for (;;) {
+		int ret = src->next(src, out);
+		if (ret != 0) {
+			*out = NULL;
+			return ret;
+		}
+
+		if (is_filename_sane((*out)->name, false))
+			return 0;
+
+		fprintf(stderr, "Found an entry named '%s', skipping.\n",
+			(*out)->name);
+		sqfs_free(*out);
+		*out = NULL;
+
+		if (dont_skip) {
+			fputs("Not allowed to skip files, aborting!\n",
+			      stderr);
+			return SQFS_ERROR_CORRUPTED;
+		}
+	}
+}
+
+static int sane_read_link(sqfs_dir_iterator_t *base, char **out)
+{
+	sqfs_dir_iterator_t *src = ((sane_filter_t *)base)->src;
+
+	return src->read_link(src, out);
+}
+
+static int sane_open_subdir(sqfs_dir_iterator_t *base,
+			    sqfs_dir_iterator_t **out)
+{
+	sqfs_dir_iterator_t *src = ((sane_filter_t *)base)->src, *sub;
+	int ret;
+
+	*out = NULL;
+	ret = src->open_subdir(src, &sub);
+	if (ret != 0)
+		return ret;
+
+	ret = sane_filter_create(out, sub);
+	sqfs_drop(sub);
+	return ret;
+}
+
+static void sane_ignore_subdir(sqfs_dir_iterator_t *base)
+{
+	sqfs_dir_iterator_t *src = ((sane_filter_t *)base)->src;
+
+	src->ignore_subdir(src);
+}
+
+static int sane_open_file_ro(sqfs_dir_iterator_t *base, sqfs_istream_t **out)
+{
+	sqfs_dir_iterator_t *src = ((sane_filter_t *)base)->src;
+
+	return src->open_file_ro(src, out);
+}
+
+static int sane_read_xattr(sqfs_dir_iterator_t *base, sqfs_xattr_t **out)
+{
+	sqfs_dir_iterator_t *src = ((sane_filter_t *)base)->src;
+
+	return src->read_xattr(src, out);
+}
+
+static int sane_filter_create(sqfs_dir_iterator_t **out,
+			      sqfs_dir_iterator_t *src)
+{
+	sane_filter_t *it = calloc(1, sizeof(*it));
+
+	*out = NULL;
+	if (it == NULL)
+		return SQFS_ERROR_ALLOC;
+
+	sqfs_object_init(it, sane_destroy, NULL);
+	it->base.next = sane_next;
+	it->base.read_link = sane_read_link;
+	it->base.open_subdir = sane_open_subdir;
+	it->base.ignore_subdir = sane_ignore_subdir;
+	it->base.open_file_ro = sane_open_file_ro;
+	it->base.read_xattr = sane_read_xattr;
+	it->src = sqfs_grab(src);
+
+	*out = (sqfs_dir_iterator_t *)it;
+	return 0;
+}
+
 static sqfs_dir_entry_t *create_root_entry(iterator_t *it)
 {
 	size_t nlen = strlen(root_becomes);
@@ -220,7 +332,7 @@ static int read_xattr(sqfs_dir_iterator_t *base, sqfs_xattr_t **out)
 
 sqfs_dir_iterator_t *tar_compat_iterator_create(const char *filename)
 {
-	sqfs_dir_iterator_t *base = NULL;
+	sqfs_dir_iterator_t *base = NULL, *filter = NULL;
 	sqfs_id_table_t *idtbl = NULL;
 	sqfs_compressor_t *cmp = NULL;
 	sqfs_dir_reader_t *dr = NULL;
@@ -332,8 +444,12 @@ sqfs_dir_iterator_t *tar_compat_iterator_create(const char *filename)
 		goto fail;
 	}
 
-	ret = sqfs_dir_iterator_create_recursive(&it->src, base);
+	ret = sane_filter_create(&filter, base);
 	base = sqfs_drop(base);
+	if (ret == 0) {
+		ret = sqfs_dir_iterator_create_recursive(&it->src, filter);
+		filter = sqfs_drop(filter);
+	}
 	if (ret) {
 		sqfs_perror(filename, "creating directory scanner", ret);
 		goto fail;
